@@ -72,7 +72,8 @@ def decode_at(b: bytes, pos: int, depth=0, nest=True):
         if major == 2 and nest and data:
             try:
                 sub, end = decode_at(data, 0, depth + 1)
-                if end == len(data):
+                # only when re-encoding gives the same bytes back (shortest heads all the way down): encode(decode(x)) == x must hold
+                if end == len(data) and encode(sub) == data:
                     it.nested = sub
             except Malformed:
                 pass
